@@ -88,7 +88,7 @@ type weighted struct {
 // every registration meets several operations.
 var opWeights = []weighted{
 	{"sub", 1}, {"cancelsub", 1}, {"hook", 1}, {"cancelhook", 1},
-	{"put", 10}, {"putnew", 2}, {"delete", 4}, {"get", 5}, {"push", 2}, {"setfail", 2},
+	{"put", 10}, {"putnew", 2}, {"delete", 4}, {"get", 5}, {"exists", 2}, {"push", 2}, {"setfail", 2},
 }
 
 func tableOf(ws []weighted) []string {
@@ -155,7 +155,7 @@ func genOp(table []string) *rapid.Generator[opSpec] {
 			op.V = rapid.IntRange(0, 9).Draw(t, "v")
 			op.S = rapid.IntRange(0, 2).Draw(t, "s")
 			op.Flags = rapid.SampledFrom([]int{0, 0, 0, 1, 2, 3}).Draw(t, "flags")
-			op.Iface = rapid.SampledFrom([]int{0, 0, 0, 1}).Draw(t, "iface")
+			op.Iface = rapid.SampledFrom([]int{0, 0, 0, 1, 2}).Draw(t, "iface")
 			if kind == "put" || kind == "putnew" || kind == "push" {
 				op.TTL = rapid.SampledFrom([]int{0, 3600}).Draw(t, "ttl")
 				op.Raw = rapid.IntRange(0, 3).Draw(t, "raw") == 0
